@@ -42,7 +42,7 @@ ASSUMPTIONS = [
     'percent-decoding is applied exactly once; no symlinks in the document root; GET over HTTP/1.1 only',
     'in direct mode an HTTPException raised by the handler counts as its status code, any other exception as a 5xx',
 ]
-REQUIRED = ['reference_selfcheck', 'audit_hook_live', 'audit_open_inside_root', 'audit_listdir_inside_root',
+REQUIRED = ['request_by_an_http10_client', 'range_header_of_an_http10_request_answered_with_the_whole_file', 'reference_selfcheck', 'audit_hook_live', 'audit_open_inside_root', 'audit_listdir_inside_root',
             'http_requests', 'direct_requests', 'served_file', 'served_default_index', 'served_listing',
             'guard_redirect', 'escape_refused_direct', 'escape_refused_http', 'reenter_through_root_name',
             'encoded_dotdot', 'double_encoded_dotdot', 'backslash_segment', 'sibling_target', 'parent_secret_target',
@@ -239,7 +239,7 @@ class World:
         return e['w']
 
     # -- one request -----------------------------------------------------------------------------
-    def request(self, fe, li, neutral, mount, dirlisting, path, range_header, before=(), defaults='std'):
+    def request(self, fe, li, neutral, mount, dirlisting, path, range_header, before=(), defaults='std', proto='1.1'):
         w = self.env(fe, li, neutral, mount, dirlisting, defaults)
         w.take()
         del w.exceptions[:]
@@ -248,7 +248,7 @@ class World:
         _AUDIT['on'] = True
         try:
             if fe == 'http':
-                self._http(w, o, path, range_header, before)
+                self._http(w, o, path, range_header, before, proto)
             else:
                 self._direct(w, o, path, range_header)
         finally:
@@ -256,7 +256,7 @@ class World:
         o.audit = _AUDIT['log']
         return o
 
-    def _http(self, w, o, path, range_header, before=()):
+    def _http(self, w, o, path, range_header, before=(), proto='1.1'):
         s = self.c['FakeSock']()
         try:
             # earlier requests on the same (persistent) connection: the request under test must be answered for its own path and headers
@@ -274,7 +274,7 @@ class World:
                     m = re.match(rb'^HTTP/1\.[01] ([0-9]{3}) ', b''.join(x[2] for x in out if x[0] == 'write' and x[1] is s))
                     o.kept.append(int(m.group(1)) if m else 0)
             _AUDIT['log'] = []
-            req = b'GET ' + path.encode('utf-8', 'surrogateescape') + b' HTTP/1.1\r\nHost: localhost\r\n'
+            req = b'GET ' + path.encode('utf-8', 'surrogateescape') + b' HTTP/' + proto.encode('ascii') + b'\r\n' + (b'Host: localhost\r\n' if proto == '1.1' else b'')
             if range_header is not None:
                 req += b'Range: ' + range_header.encode('latin-1') + b'\r\n'
             w.feed(s, [req + b'\r\n'])
@@ -485,10 +485,12 @@ def evaluate(world, case, neutral=False):
     if case['family'] == 'range':
         header = case['prefix'] + case['sep'].join(case['specs']) if case['specs'] is not None else None
     before = [(('' if mount is None else mount.rstrip('/')) + '/' + rel, rng_h) for rel, rng_h in case.get('before', ())] if case['fe'] == 'http' else []
-    o = world.request(case['fe'], case['layout'], neutral, mount, case.get('dirlisting', False), path, header, before, case.get('defaults', 'std'))
+    o = world.request(case['fe'], case['layout'], neutral, mount, case.get('dirlisting', False), path, header, before, case.get('defaults', 'std'), case.get('proto', '1.1'))
     if case.get('defaults', 'std') != 'std':
         counters['static_without_default_documents'] = 1
     info['status'] = o.status
+    if case.get('proto') == '1.0':
+        counters['request_by_an_http10_client'] = 1
     if o.kept:
         counters['request_on_kept_alive_connection'] = 1
         if 200 in o.kept:
@@ -526,6 +528,10 @@ def evaluate(world, case, neutral=False):
         evaluated.append('RANGE')
         content = INSIDE[case['file']]
         rp = ref.judge_range_response(header, content, o.status, o.headers, o.body)
+        if case.get('proto') == '1.0' and o.status == 200:
+            # byte ranges are an HTTP/1.1 mechanism: a server may answer an HTTP/1.0 request with the whole file (this one does)
+            counters['range_header_of_an_http10_request_answered_with_the_whole_file'] = 1
+            rp = [] if o.body == content else ['200 for an HTTP/1.0 request whose body is not the whole file']
         if o.status >= 500:
             rp = []          # already reported under NO_5XX
         if rp:
@@ -805,6 +811,13 @@ def corpus():
         for mount in ('/static', '/a/b'):
             for fname, specs in (('static/x.txt', ['0-5']), ('a/b/x.txt', ['-6']), ('sub/staticfile.txt', ['2-4', '8-9'])):
                 cases.append(range_case(fe, 0, mount, fname, specs))
+    # the same questions asked by an HTTP/1.0 client (files, default documents, listings, hostile paths, byte ranges)
+    for li in (0, 1):
+        for mount in (None, '/static'):
+            for t in ['f10.txt', 'big.txt', 'sub/in.txt', 'sub/', 'sub2/', '', 'nonexistent', '../secret.txt', '%2e%2e/secret.txt', '../{sib}/x', 'e0.txt', 'static/x.txt']:
+                cases.append(dict(path_case('http', li, mount, True, t.split('/')), proto='1.0'))
+        for fname, specs in (('f10.txt', ['2-5']), ('big.txt', ['-7']), ('big.txt', ['0-1', '9-12']), ('f10.txt', ['50-']), ('e1.txt', ['0-0']), ('sub2/other.bin', ['x-y'])):
+            cases.append(dict(range_case('http', li, '/static' if li else None, fname, specs), proto='1.0'))
     # no default documents configured (defaults=() / []): directories are listed (or refused), never taken from anywhere else
     for fe in ('http', 'direct'):
         for li in (0, 1):
@@ -872,6 +885,8 @@ def gen_path(rng):
         case['defaults'] = rng.choice(['tuple', 'list'])
     if fe == 'http' and rng.random() < 0.35:
         case['before'] = gen_before(rng)
+    if fe == 'http' and rng.random() < 0.15:
+        case['proto'] = '1.0'
     return case
 
 
@@ -927,6 +942,8 @@ def gen_range(rng):
     case = range_case(fe, li, mount, fname, specs, prefix=prefix, sep=sep)
     if fe == 'http' and rng.random() < 0.35:
         case['before'] = gen_before(rng)
+    if fe == 'http' and rng.random() < 0.12:
+        case['proto'] = '1.0'
     return case
 
 
